@@ -218,10 +218,11 @@ Definition esccase_agree (c : esccase) : bool :=
   seqb (etree_escape (mode_of (xe_mode c)) (xe_in c)) (xe_out c)
   && ostr_eqb (xml_read (if xe_attr c then Some """"%char else None) (xe_out c)) (xe_back c).
 (* the round trip on the implementation's own output: every string of valid XML
-   characters comes back unchanged through the canonical modes (attribute values
-   containing "]]>" excepted — see xml_attr_cdata_end_refuted) *)
+   characters comes back unchanged through the canonical modes.  (Attribute
+   values containing "]]>" do not — xml_attr_cdata_end_refuted, known finding
+   K4; the harness labels those cases string_class=cdata-end-in-attribute.) *)
 Definition esccase_spec (c : esccase) : bool :=
-  if valid_xml_chars (xe_in c) && negb (xe_mode c =? 0) && negb (xe_attr c && has_cdata_end (xe_in c))
+  if valid_xml_chars (xe_in c) && negb (xe_mode c =? 0)
   then ostr_eqb (xe_back c) (Some (xe_in c)) else true.
 Definition check_esccases := check_cases esccase_agree esccase_spec.
 
